@@ -217,6 +217,23 @@ instance (mk : Option Market) (a : List String) (cfee : Option Coin) (tp : Coin)
       AttrsOk mkt.reqBid a ∧ FlatFeeOk mkt.createBidFlat cfee ∧
       BuyerFeeOk mkt.buyerFlat mkt.buyerRatios tp fees) (by simp)
 
+/-! ### The configuration in force
+
+"the market exists and is *currently* accepting that kind of item": a market exists from the
+message that creates it; its configuration is the one it was created with (required
+attribute names normalised like every name on chain), as changed by the authority's
+messages sent **after** the creation.  Nothing sent for the id before the market was
+created is part of the market. -/
+
+/-- the requested market with its required-attribute names normalised -/
+def Market.asRequested (rq : Market) : Market :=
+  { rq with reqAsk := rq.reqAsk.map normalizeName, reqBid := rq.reqBid.map normalizeName,
+            reqCommit := rq.reqCommit.map normalizeName }
+
+/-- The market of a history, if it has one, with the configuration in force at its end. -/
+def History.configInForce (h : History) : Option Market :=
+  h.requested.map fun rq => h.post.foldl Step.applyTo rq.asRequested
+
 /-! ### Well-formed configurations and inputs (what the chain's own validation guarantees) -/
 
 /-- the flat options of one kind are a map keyed by denom -/
